@@ -104,6 +104,9 @@ def branch_step(cx, fn):
 
 
 def run(run, tier, loadcfg):
+    if tier == 'thorough':
+        import witness
+        witness.check(run, 'c12', 1)
     run.rule_text = 'one instance per (branch impl or constructor x rule x configuration)'
     run.explanation = ('Each of the four branch next() bodies has exactly the transitions hit / dry / lead of the fork automaton (effects, order, argument flow, flag '
                        'write), the A and B branches use opposite flag values and the Rc/Ref siblings agree; pending_frames = len() iff the flag names this branch; '
@@ -238,6 +241,10 @@ def run(run, tier, loadcfg):
                 ok = (a[0] == 'agg' and b[0] == 'agg' and a[1][1] == 'dasp_signal::BranchRefA' and b[1][1] == 'dasp_signal::BranchRefB'
                       and a[2] == b[2] and a[2][0] == ('ref', self_loc(cx.field_index('dasp_signal::Fork', 'shared'))))
             run.check(ok, 'fork.aliasing', fn, cfg, 'by_ref must hand both branches a reference to the fork\'s own shared cell', where=where(body))
+            # re-splitting must keep the shared state (queue + flag): the invariant of Appendix C.2 has to survive a re-split
+            touched = [ev_key(e) for k, e in call_events(ps[0])] + [short_loc(l) for l in heap_writes(ps[0], ignore_mut=False)] if len(ps) == 1 else ['?']
+            run.check(not touched, 'fork.resplit-keeps-state', fn, cfg,
+                      'by_ref touches the shared state (%s): frames queued for one branch and the flag naming their owner must survive a re-split' % ', '.join(touched), where=where(body))
         else:
             run.fail('fork.aliasing', fn, cfg, 'function not found')
         if cfg != 'nostd':
@@ -259,5 +266,9 @@ def run(run, tier, loadcfg):
                             return t[0] == 'app' and t[1].endswith('Clone>::clone') and t[2][0][0] == 'ref' and load(p, t[2][0][1]) == rc
                         ok = (a[1][1] == 'dasp_signal::BranchRcA' and b[1][1] == 'dasp_signal::BranchRcB' and is_rc(a[2][0]) and is_rc(b[2][0]))
                 run.check(ok, 'fork.aliasing', fn, cfg, 'by_rc must put the shared state in one Rc and give both branches that Rc (or a clone of it)', where=where(body))
+                if len(ps) == 1:
+                    other = [ev_key(e) for k, e in call_events(ps[0], effectful_only=False) if not (e.get('rpath') or e['path']).startswith(('alloc::rc::Rc::<T>::new', '<alloc::rc::Rc<T'))]
+                    other += [short_loc(l) for l in heap_writes(ps[0])]
+                    run.check(not other, 'fork.resplit-keeps-state', fn, cfg, 'by_rc touches the shared state (%s) before sharing it' % ', '.join(other), where=where(body))
             else:
                 run.fail('fork.aliasing', fn, cfg, 'function not found')
